@@ -33,10 +33,11 @@ def st(name, kind, parent, **kw):
     return d
 
 
-def tr(tid, source, target, event=None, tguard=None, action=None, **kw):
+def tr(tid, source, target, event=None, tguard=None, action=None, tag=None, **kw):
     g = None
     if tguard:
-        g = 'W(%d, %s(%d))' % (tid, tguard[0], tguard[1])
+        # tag: several transitions carrying the very same guard text (the predicate is relative to each one's source)
+        g = 'W(%r, %s(%d))' % (tag if tag else tid, tguard[0], tguard[1])
     d = {'tid': tid, 'source': source, 'target': target, 'event': event, 'guard': g,
          'tguard': tguard, 'action': action, 'priority': 0}
     d.update(kw)
@@ -92,6 +93,11 @@ def chart_orth():
         tr(4, 'q2', None, event='x', tguard=('idle', 2), action="P('t', time)"),
         tr(5, 'p', None, event='y', tguard=('after', 3), action="P('t', time)"),
         tr(6, 'p1', None, event='y', tguard=('idle', 1), action="P('t', time)"),
+        # textually identical guards on states entered at different times: a region's child, the other region's
+        # child, and the compound state above the first one
+        tr(7, 'p2', None, event='w', tguard=('after', 2), action="P('t', time)", tag='S'),
+        tr(8, 'q2', None, event='w', tguard=('after', 2), action="P('t', time)", tag='S'),
+        tr(9, 'p', None, event='w', tguard=('after', 2), action="P('t', time)", tag='S'),
     ]
     return {'name': 'orth', 'preamble': None, 'description': None, 'states': states, 'transitions': T}
 
@@ -101,7 +107,7 @@ CHARTS = {'seq': chart_seq, 'orth': chart_orth}
 # i.e. after the time was sampled and before any guard is evaluated
 # ('qd', name, d): an external event queued with a delay (its due time is relative to the frozen time; queueing
 # must not move Interpreter.time)
-OPS = [('clock', 1), ('clock', 2), ('clock', 3), ('q', 'x'), ('q', 'y'), ('q', 'z'), ('q', 'adv'), ('step',),
+OPS = [('clock', 1), ('clock', 2), ('clock', 3), ('q', 'x'), ('q', 'y'), ('q', 'z'), ('q', 'w'), ('q', 'adv'), ('step',),
        ('stepL', 2), ('stepL', 3), ('qd', 'x', 2), ('qd', 'y', 1)]
 
 
@@ -348,7 +354,9 @@ def expand(task):
         res['outcomes'][op[0]] += 1
         if op[0] in ('step', 'stepL'):
             for e in probes.LOG:
-                if e[0] == 'w':
+                if e[0] == 'w' and not isinstance(e[1], int):
+                    res['outcomes']['shared guard text %s=%s' % (e[1], e[2])] += 1
+                elif e[0] == 'w':
                     res['outcomes']['guard %s(%d)@%s=%s' % (ref.trans[e[1]]['tguard'] + (
                         ref.trans[e[1]]['source'], e[2]))] += 1
                 if e[0] == 'adv':
